@@ -45,7 +45,7 @@ theorem sim_subrun {n : Nat} (hS : SimS n) {K : SCtx} {k : Ctx} {sub : Bool} {s 
     (hl : LastOk s) (hx : s.exit = {}) :
     SubRel (foldStmts (fun st => run n (.stmt st)) p (subshellOf s out0))
       (subRun (fun st => sem n { k with depth := 0 } (.stmt st))
-        (fun a e => sem n { k with depth := 0 } (.trap a) e) p (subEnv (absEnv s) out0)) := by
+        (fun a e => sem n { k with depth := 0, exitTrap := true } (.trap a) e) p (subEnv (absEnv s) out0)) := by
   have h0 := sim_list n hS p (subK K.e) false { k with depth := 0 } true (subshellOf s out0) hp0
     (hst.sub hne) hsup (hd.sub hst hne out0) hl (by simp [NoFlags, subshellOf, hx])
     (by simp [NoPending, subshellOf])
@@ -118,7 +118,7 @@ theorem sim_subsh {n : Nat} (hS : SimS n) {K : SCtx} {k : Ctx} {sub : Bool} {s :
     rw [run]; simp only [stop_false_of_exit hx, Bool.false_eq_true, ↓reduceIte]; rfl
   have hsem : sem (n+1) k (.cmd (.subsh p)) (absEnv s) =
       match subRun (fun st => sem n { k with depth := 0 } (.stmt st))
-          (fun a e => sem n { k with depth := 0 } (.trap a) e) p (subEnv (absEnv s) s.out) with
+          (fun a e => sem n { k with depth := 0, exitTrap := true } (.trap a) e) p (subEnv (absEnv s) s.out) with
       | none => none
       | some (_, e1) => some (.norm, { absEnv s with status := e1.status, out := e1.out }) := by
     rw [sem]; rfl
@@ -154,7 +154,7 @@ theorem sim_assignSub {n : Nat} (hS : SimS n) {K : SCtx} {k : Ctx} {sub : Bool} 
     rw [run]; simp only [stop_false_of_exit hx, Bool.false_eq_true, ↓reduceIte]; rfl
   have hsem : sem (n+1) k (.cmd (.assignSub x p)) (absEnv s) =
       match subRun (fun st => sem n { k with depth := 0 } (.stmt st))
-          (fun a e => sem n { k with depth := 0 } (.trap a) e) p (subEnv (absEnv s) []) with
+          (fun a e => sem n { k with depth := 0, exitTrap := true } (.trap a) e) p (subEnv (absEnv s) []) with
       | none => none
       | some (_, e1) =>
         some (.norm, { absEnv s with status := e1.status, vars := (x, stripNl e1.out) :: (absEnv s).vars }) := by
